@@ -261,11 +261,13 @@ def psi_to_dec_and_ra(
 
     # Convert back to right-ascension and declination.
     # This is to distinguish between diametrically opposite directions.
-    zen = np.arccos(z)
+    # Correct for possible rounding errors.
+    zen = np.arccos(np.clip(z, -1., 1.))
     azi = np.arctan2(y, x)
 
     dec = np.pi/2 - zen
-    ra = np.pi - azi
+    # azi == -pi would give exactly 2pi: wrap it to 0.
+    ra = np.mod(np.pi - azi, 2*np.pi)
 
     return (dec, ra)
 
